@@ -21,7 +21,7 @@ from ..cfg import CFG
 
 NN = -1          # known: not the terminator (value unknown)
 CTYPE = {'isdigit', 'isspace', 'isalpha', 'isalnum', 'isupper', 'islower', 'ispunct', 'isxdigit', 'isgraph', 'isprint'}
-MAXALT = 24
+MAXALT = 64
 
 
 def _facts_nonzero(facts, ck):
@@ -416,6 +416,8 @@ class CursorAnalysis(object):
                         summ = None
                     if summ is not None and any(v == 'null' for (_, v) in summ[1]):
                         maynull = True
+                    elif _returns_nulled_variable(self.ctx, callee(rr)[1]):
+                        maynull = True      # (`dp = nullptr; ... return dp;`)
                 a2.mn = (a2.mn - {cid}) | ({cid} if maynull else frozenset())
             elif cid in a2.mn:
                 self.oblige(node, 'use of %s' % self.cursors[cid].get('name'), False, 'arithmetic on a pointer that may be null')
@@ -650,6 +652,7 @@ class CursorAnalysis(object):
             uniq.setdefault(a.key(), a)
         out = list(uniq.values())
         if len(out) > MAXALT:
+            self.capped = True          # knowledge is lost here: a failed obligation afterwards is not a verdict
             return [meet_alts(out)]
         return out
 
@@ -1183,6 +1186,30 @@ class CursorAnalysis(object):
         return [(m, alt) for (m, _) in n.succs]
 
 
+def _returns_nulled_variable(ctx, decl):
+    """A library function that returns a pointer variable which some statement of it sets to the null literal."""
+    try:
+        tgs = ctx.G.resolve_decl(decl)
+    except Exception:
+        return False
+    for t in tgs:
+        if t not in ctx.G.defs:
+            continue
+        u, f = ctx.G.defs[t]
+        rv = set()
+        for x in walk(f):
+            if x.get('kind') == 'ReturnStmt' and kids(x):
+                r = peel(kids(x)[0])
+                if r is not None and r.get('kind') == 'DeclRefExpr':
+                    rv.add((r.get('referencedDecl') or {}).get('id'))
+        for x in walk(f):
+            if x.get('kind') == 'BinaryOperator' and x.get('opcode') == '=' and (peel(kids(x)[0]).get('referencedDecl') or {}).get('id') in rv:
+                r = peel(kids(x)[1])
+                if r is not None and r.get('kind') in ('CXXNullPtrLiteralExpr', 'GNUNullExpr'):
+                    return True
+    return False
+
+
 def lookup_in_loop_condition(f):
     """A character lookup whose result is assigned inside a loop condition (`while ((dp = strchr(SET, *++p)) != nullptr)`): what
     the loop body then establishes about the character just looked up is not carried round the loop by the typestate."""
@@ -1208,8 +1235,14 @@ def check_function(ctx, rule, fkey):
     obs = ca.run()
     n = 0
     unfollowed = lookup_in_loop_condition(ctx.G.defs[fkey][1])
+    if getattr(ca, 'capped', False):
+        ctx.stats.setdefault('cursor_capped', []).append(fname(fkey).split('(')[0])
     for (node, what, ok, detail) in obs:
         n += 1
+        if ok is False and getattr(ca, 'capped', False):
+            ok = None
+            detail = 'more than %d alternative states of the scan met at one point and were merged: what was known about the ' \
+                     'characters was lost there (%s)' % (MAXALT, detail)
         if ok is False and unfollowed:
             ok = None
             detail = 'a lookup result is assigned inside a loop condition: what the body establishes about the character is not ' \
